@@ -14,9 +14,9 @@ Open Scope Z_scope.
 
 (* the traversal returns, as a permutation, exactly the nodes of the selected levels whose cube overlaps the box
    (touching faces included) — any depth, sparsity, empty nodes (count 0), any split over pages *)
-Theorem C15_nodes : forall t g ob lv fuel, wf_tree t -> 0 <= g_side g -> (fuel_bound t <= fuel)%nat ->
+Theorem C15_nodes : forall t g ob lv, wf_tree t -> 0 <= g_side g -> forall fuel, (fuel_bound t <= fuel)%nat ->
   exists ns, load_octree fuel t g ob lv = Ok ns /\ Permutation ns (target t g ob lv).
-Proof. intros t g ob lv fuel WF Hs Hf. exact (load_octree_nodes t g ob lv WF Hs fuel Hf). Qed.
+Proof. exact load_octree_nodes. Qed.
 Print Assumptions C15_nodes.
 
 (* the query returns the multiset of the points of those nodes that pass the integer box filter
@@ -31,30 +31,35 @@ Print Assumptions C15_points.
 (* every stored point of the selected levels that really lies inside the box (faces included) is returned, with its
    multiplicity: restricted to such points, the result IS the set of all points of the selected levels.
    (pts_ok: points lie in the cube of their node, are int32, and inside the header's z range) *)
-Theorem C15_inside : forall t g c pts hz0 hz1 qb b lv fuel,
+Theorem C15_inside : forall t g c pts hz0 hz1,
   wf_tree t -> 0 <= g_side g -> csys_ok c -> pts_ok t c g hz0 hz1 pts ->
-  ensure_3d qb hz0 hz1 = Some b -> (fuel_bound t <= fuel)%nat ->
+  forall qb b lv fuel, ensure_3d qb hz0 hz1 = Some b -> (fuel_bound t <= fuel)%nat ->
   exists ps, query fuel t g qb hz0 hz1 (exact_grid c b) lv pts = Ok ps /\
     Permutation (filter (inside c b) ps) (filter (inside c b) (level_points t (level_range lv) pts)).
-Proof. intros t g c pts hz0 hz1 qb b lv fuel WF Hs Hc Hp. exact (query_inside t g c pts hz0 hz1 WF Hs Hc Hp qb b lv fuel). Qed.
+Proof. exact query_inside. Qed.
 Print Assumptions C15_inside.
 
 (* nothing else is returned than points of the selected levels passing the integer filter (as a sub-multiset) ... *)
-Theorem C15_upper : forall t g pts hz0 hz1 qb lv q fuel,
-  wf_tree t -> 0 <= g_side g -> (fuel_bound t <= fuel)%nat ->
+Theorem C15_upper : forall t g pts hz0 hz1, wf_tree t -> 0 <= g_side g ->
+  forall qb lv q fuel, (fuel_bound t <= fuel)%nat ->
   exists ps rest, query fuel t g qb hz0 hz1 q lv pts = Ok ps /\
     Permutation (ps ++ rest) (result_of qb q (level_points t (level_range lv) pts)).
-Proof. intros t g pts hz0 hz1 qb lv q fuel WF Hs. exact (query_upper t g pts hz0 hz1 WF Hs qb lv q fuel). Qed.
+Proof. exact query_upper. Qed.
 Print Assumptions C15_upper.
 
-(* ... and a coordinate that passes the integer filter is at most half a step outside [q0, q1] (grid bounds not
-   saturated); a coordinate inside passes it *)
-Theorem C15_half_step : forall q0 q1 X, 0 < snd q0 -> 0 < snd q1 ->
-  gen_i32_min <= rint (fst q0) (snd q0) <= gen_i32_max -> gen_i32_min <= rint (fst q1) (snd q1) <= gen_i32_max ->
+(* ... and a coordinate that passes the integer filter is at most half a step outside [q0, q1], for EVERY box:
+   bounds beyond the int32 grid are clipped one step outside it, never onto its end points; a coordinate inside
+   passes the filter *)
+Theorem C15_half_step : forall q0 q1 X, 0 < snd q0 -> 0 < snd q1 -> gen_i32_min <= X <= gen_i32_max ->
   gen_keep1 (grid q0) (grid q1) X = true ->
   2 * fst q0 - snd q0 <= 2 * (X * snd q0) /\ 2 * (X * snd q1) <= 2 * fst q1 + snd q1.
-Proof. exact keep1_half_step. Qed.
+Proof. exact keep1_half_step_all. Qed.
 Print Assumptions C15_half_step.
+
+Theorem C15_filter_exact : forall q0 q1 X, gen_i32_min <= X <= gen_i32_max ->
+  (gen_keep1 (grid q0) (grid q1) X = true <-> rint (fst q0) (snd q0) <= X <= rint (fst q1) (snd q1)).
+Proof. exact keep1_exact. Qed.
+Print Assumptions C15_filter_exact.
 
 Theorem C15_inside_kept : forall c b p, csys_ok c -> pt_i32 p -> inside c b p = true -> keep (exact_grid c b) p = true.
 Proof. exact keep_inside. Qed.
@@ -62,11 +67,11 @@ Print Assumptions C15_inside_kept.
 
 (* a box that contains the root cube (2-D: in x and y), however large — the grid bounds saturate at the int32
    range — returns all points of the selected levels *)
-Theorem C15_enclosing : forall t g c pts hz0 hz1 qb lv q fuel,
+Theorem C15_enclosing : forall t g c pts hz0 hz1,
   wf_tree t -> 0 <= g_side g -> csys_ok c -> pts_ok t c g hz0 hz1 pts ->
-  encloses g qb -> (forall b, ensure_3d qb hz0 hz1 = Some b -> q = exact_grid c b) -> (fuel_bound t <= fuel)%nat ->
+  forall qb lv q fuel, encloses g qb -> (forall b, ensure_3d qb hz0 hz1 = Some b -> q = exact_grid c b) -> (fuel_bound t <= fuel)%nat ->
   exists ps, query fuel t g qb hz0 hz1 q lv pts = Ok ps /\ Permutation ps (level_points t (level_range lv) pts).
-Proof. intros t g c pts hz0 hz1 qb lv q fuel WF Hs Hc Hp. exact (query_enclosing t g c pts hz0 hz1 WF Hs Hc Hp qb lv q fuel). Qed.
+Proof. exact query_enclosing. Qed.
 Print Assumptions C15_enclosing.
 
 (* resolution: levels 0 .. L, L the first level whose spacing (spacing / 2^L) is at most the resolution *)
@@ -74,10 +79,7 @@ Theorem C15_resolution : forall sn sd rn rd, 0 < sn -> 0 < sd -> 0 < rn -> 0 < r
   let L := res_level sn sd rn rd in
   (0 <= L /\ sn * rd <= rn * sd * 2 ^ L /\ (forall L', 0 <= L' < L -> rn * sd * 2 ^ L' < sn * rd))
   /\ (forall k, in_level (level_range (LvRes sn sd rn rd)) k = true <-> 0 <= kl k <= L).
-Proof.
-  intros sn sd rn rd H1 H2 H3 H4. split; [exact (res_level_spec sn sd rn rd H1 H2 H3 H4)|].
-  intros k. rewrite in_level_key. exact (resolution_levels sn sd rn rd (kl k) H1 H2 H3 H4).
-Qed.
+Proof. exact resolution_spec. Qed.
 Print Assumptions C15_resolution.
 
 (* a reference whose page does not describe the key makes the query fail with LaspyException, in whatever state the
@@ -115,7 +117,7 @@ Print Assumptions C15_empty_nodes.
    cut by the table's sizes) to the concatenation of the nodes' chunks in ascending offset order *)
 Theorem C15_grouping : forall (A : Type) (dec : list Z -> Z -> list A) file ns, Forall (node_in_file file) ns ->
   fetch_and_decode dec file ns = flat_map (node_dec dec file) (sort_off ns) /\ ascending (sort_off ns).
-Proof. intros A dec file ns H. split; [exact (fetch_and_decode_correct dec file ns H) | exact (sort_off_ascending ns)]. Qed.
+Proof. exact grouping_spec. Qed.
 Print Assumptions C15_grouping.
 
 (* the hypotheses are checkable: the executable checks the harness runs on every generated file imply them *)
